@@ -89,7 +89,49 @@ def main():
         bad[i]["post"]["defs"], bad[i]["post"]["keys"], bad[i]["post"]["fdefs"] = [], [], []
         s3 = srun(bad, "parsefail")
         print("suite trace in which a parse failure clears the records rejected:", not s3["ok"])
+    # ---- a session of the real binary against LspTrace.tla
+    import tempfile
+    import lsp
+    import lsptrace as LT
+    C.build_server()
+    LT.start()
+    wd = tempfile.mkdtemp(dir=d)
+    srv = lsp.Server()
+    srv.meta["cfg"] = {"kind": "absent", "codes": []}
+    srv.initialize(wd)
+    tp = os.path.join(wd, "test_t.py")
+    srv.did_open(os.path.join(wd, "conftest.py"), "import pytest\n\n\n@pytest.fixture\ndef a():\n    return 1\n", tag=["c", 3])
+    srv.did_open(tp, "def test_1():\n    a\n", tag=["t", 1])
+    srv.did_change(tp, "def test_1(a):\n    pass\n", tag=["t", 2])
+    srv.pos_request("textDocument/definition", tp, 0, 11)
+    srv.close()
+    sess = lsp.SESSIONS[-1]
+    LT.start()
+    evs = LT.normalise(sess)
+
+    def lrun(es, name):
+        p = os.path.join(d, "selftest-lsp-%s.ndjson" % name)
+        with open(p, "w") as fh:
+            for e in es:
+                fh.write(json.dumps(e) + "\n")
+        r = LT.tlc_validate(p)
+        os.unlink(p)
+        return r
+    l_ok = lrun(evs, "ok")
+    print("LSP session accepted:", l_ok["ok"], "(%d events)" % len(evs))
+    k = next(i for i, e in enumerate(evs) if e["ev"] == "pub" and e["codes"])
+    bad = json.loads(json.dumps(evs))
+    bad[k]["codes"] = []
+    l1 = lrun(bad, "codes")
+    print("LSP session with one publication's codes emptied rejected:", not l1["ok"])
+    k = next(i for i, e in enumerate(evs) if e["ev"] == "resp" and i > 3)
+    l2 = lrun(evs[:k] + evs[k + 1:], "noresp")
+    print("LSP session with one response removed rejected:", not l2["ok"])
+    k = next(i for i, e in enumerate(evs) if e["ev"] == "pub")
+    l3 = lrun(evs[:k + 1] + [evs[k]] + evs[k + 1:], "dup")
+    print("LSP session with one publication duplicated rejected:", not l3["ok"])
     good = ok["ok"] and not r1["ok"] and not r1b["ok"] and not r2["ok"] and not r3["ok"] \
-        and s_ok["ok"] and not s1["ok"] and not s2["ok"] and not s3["ok"]
+        and s_ok["ok"] and not s1["ok"] and not s2["ok"] and not s3["ok"] \
+        and l_ok["ok"] and not l1["ok"] and not l2["ok"] and not l3["ok"]
     print("SELFTEST", "PASS" if good else "FAIL")
     return 0 if good else 2
